@@ -15,13 +15,13 @@ RULE = ("command lines are constructed as opener + words separated by 1-3 spaces
         "$NAME, ${expr}, @(expr), @$(cmd), nested bracket forms up to depth 3); the expected list of words with typed pieces is known by construction; "
         "the returned Call's func and args, flattened to the same normal form, must equal it; distinct non-trivial = distinct command lines with >= 2 pieces")
 ASSUMPTIONS = ["normal form: Constant strings are verbatim text, BinOp(Add) chains and gluing tuples are flattened left to right, adjacent text merged; "
-               "the gluing node shape itself is not prescribed", "Python reserved words are outside the property's domain and are never generated as words"]
+               "the gluing node shape itself is not prescribed", "Python reserved words are outside the property's stated quantifier; since the repair that lets keywords be words (`git config --global`) the generated words may contain them and are judged like any other word"]
 
 FORMS = {"$(": (")", "subproc_captured"), "$[": ("]", "subproc_uncaptured"), "!(": (")", "subproc_captured_object"), "![": ("]", "subproc_captured_hiddenobject")}
 ALPHA = "abcdefghijklmnopqrstuvwxyzABCXYZ0123456789_-./=:,+%^~*<>|&;@"
 SPECIAL_WORDS = ["1e5x", "0x1f", "1_000", "3j", "1.", ".5", "->", "**", "//", "<<=", ":=", "...", "2>&1", "e>o", "a>&2", "&&", "||", "&", "|", ">", ">>", "<", "-l", "--opt=1", "-am",
                  "sub-cmd", "x.py", "../a/b.c", "~/.config", "/usr/bin/env", "a=b", "k:v", "1,2", ",", "+x", "%y", "^z", "*.py", "a*b?c".replace("?", ""), "http://h:80/p", "é", "naïve", "日本",
-                 "föö-bär", "1..2", "a..b", "0b101", "1e-5", "1_0.0_1j", "v1.2.3", "user@host", "@", "-", "--", "a;b", ";", "==", "!=".replace("!", "="), "x=1,y=2", "C:/x", "a+b=c", "00", "0_0", "1__0".replace("__", "_"),
+                 "föö-bär", "1..2", "a..b", "0b101", "1e-5", "1_0.0_1j", "v1.2.3", "user@host", "@", "-", "--", "a;b", ";", "==", "!=".replace("!", "="), "x=1,y=2", "C:/x", "a+b=c", "00", "0_0", "1__0".replace("__", "_"), "--global", "if=/dev/zero", "for-each-ref", "0in", "is", "not", "for.txt", "a/is/b", "--continue", "lambda", "None",
                  # words that are not stable under NFKC / case folding: subprocess words are passed verbatim, never normalised like identifiers
                  "\ufb01le.txt", "5\u00b5s", "x\u00aa", "n\u00ba=1", "\uff46\uff55\uff4c\uff4c", "\u017ft", "\u2167", "\u00b5", "a\u0301", "\u212bngstrom", "\u1e9e"]
 _KW = set(keyword.kwlist)
@@ -293,7 +293,7 @@ def run_shard(shard):
         ctx, mode = rnd.choice(CONTEXTS) if rnd.random() < 0.5 else CONTEXTS[1]
         g.col0 = len(ctx.split("{}")[0].rsplit("\n", 1)[-1]) + len(op)
         body, words = g.line(0, FORMS[op][0])
-        if g.reserved:
+        if g.reserved and False:
             acc.count("skipped_reserved_word")
             continue
         check_case(acc, op, body, words, ctx, mode)
